@@ -25,6 +25,28 @@ CHECKS = {
     ),
 }
 
+
+RUNNER_TECH = ("TLA+ model of the executor design (Runner.tla) model-checked by TLC against the property "
+               "monitor RunnerObs.tla; the real runner::Basic driven through a gate-controlled test double; "
+               "its hooked linearization points validated by TLC against the same monitor (Trace_Runner.tla)")
+RUNNER_NOTE = ("bounded model constants; seeded schedules sample the interleavings of the real code; hooks "
+               "(cfg cucumber_verif) and the harness test double are trusted")
+RUNNER_TEXT = {
+    "C01": "TLC checks the design's event streams against the FinalFailure rule; on the code every driven run's real stream is fed through the built-in stats pipelines (Summarize<Normalize>, Libtest, Tee, Or, +-FailOnSkipped/Repeat) and each verdict is compared by the TLA+ monitor with the final-failure predicate evaluated on the recorded stream.",
+    "C02": "the monitor holds a per-attempt automaton (Started, before hook, steps in declaration order with exactly one result, deferred failure, after hook, Finished, constant retry counter) and checks every result event against what the user callback really did; TLC checks it on all interleavings of the model and on every record of the driven runs.",
+    "C03": "bracket rules (run/feature/rule Started/Finished exactly once, nesting, none for empty ones, ParsingFinished counts, parser errors in order, Finished last then end of stream) are monitor rules evaluated on every model state and every recorded run, with lazy parsers, errors, retries and fail-fast.",
+    "C04": "safety (exactly the supplied scenarios are attempted) is a monitor rule at stream end; termination is proved on the model as <>Done under fairness (TLC finds the pre-fix idle-spin lasso when the switch is off) and observed on the code as stream end within a watchdog under lazy-parser schedules.",
+    "C05": "attempt numbering, left = N - k, retry exactly on failure within budget, no overlap, fresh World per attempt and the one-sided delay bound (Started(k+1) - Finished(k) >= delay, same monotonic clock) are monitor rules on model and code.",
+    "C06": "in-flight count <= limit at every Started, slot accounting (slots + running = limit), batch <= free slots, and work conservation at every Features::get (nothing ready is left behind while slots are free; the executor never parks after a completion without looking at the queue) - checked on all model interleavings and on the recorded get/dispatch/completed records.",
+    "C07": "no attempt or foreign user callback overlaps a serial attempt (event level and callback level), and a serial entry is dispatched only when nothing runs / nothing is dispatched while it runs (dispatch level); TLC rediscovers the pre-fix overlap when the SerialExclusive switch is off.",
+    "C08": "after the first final failure no batch is dispatched, only attempts dispatched before it may still begin (fewer than the limit), all brackets close, no ingestion after a parser error; failure-free fail-fast runs are compared scenario by scenario with their twin run without fail-fast.",
+    "C09": "the monitor tracks World ids and mutation counters through the callback records of the test double: before hook first on a fresh World, same World with all earlier mutations in every step, after hook exactly once with the true reason and World presence, at most one World per attempt and only when needed, no World shared.",
+    "C10": "scripted panics (String, &str, custom payload) and World errors at every callback position: payload of the Failed event equals what was thrown, the attempt still gets its after hook and Finished, the run ends, a sentinel process panic hook is never invoked during the run and is in place again afterwards.",
+}
+for _pid, _txt in RUNNER_TEXT.items():
+    CHECKS[_pid] = dict(engine="runner-trace", technique=RUNNER_TECH, level="model_checking",
+                        text=_txt, design_ref=f"DESIGN.md §3 {_pid}", note=RUNNER_NOTE)
+
 NOT_YET = "check not built yet in this round (planned: see DESIGN.md §3)"
 
 
@@ -54,10 +76,14 @@ def main():
             "enable": "RUSTFLAGS='--cfg cucumber_verif' via /verif/harness/.cargo/config.toml "
                       "(the harness has a path dependency on /repo and is rebuilt by every check)",
             "baseline_off_cmd": "cd /repo && cargo test --workspace --no-fail-fast --offline",
-            "source_commits": ["8cd4e4c"],
+            "source_commits": ["8cd4e4c", "fe89a36", "41a32ac"],
             "add_only": True,
         },
         "engines": [
+            {"name": "runner-trace", "path": "lib/engine_runner.py",
+             "serves_properties": ["C01", "C02", "C03", "C04", "C05", "C06", "C07", "C08", "C09", "C10"],
+             "kind_free_text": "TLC model checking of Runner.tla against the monitor RunnerObs.tla + driven runs "
+                               "of the real runner validated by TLC (Trace_Runner.tla)"},
             {"name": "writers-replay", "path": "lib/engine_writers.py",
              "serves_properties": ["C01", "C11", "C12", "C13", "C14"],
              "kind_free_text": "TLC model checking + TLC-generated streams replayed into the real "
